@@ -89,6 +89,11 @@ pub struct Cx<'g> {
     pub opt_mut_params: Vec<String>,
     /// this fn is a finder (see `FnInfo::ref_ret`)
     pub ref_ret: Option<(bool, String)>,
+    /// explicit randomness parameters `rand1 ..` used so far (see `manifest::RANDOM_SOURCES`)
+    pub rand_sites: usize,
+    /// values of places (keyed by their `Debug` text) read into temporaries just before a `call(..)?`: what the pure
+    /// description of the caller's state after the callee's `Err` uses for places that cannot be read purely
+    pub snapshots: std::collections::BTreeMap<String, String>,
     /// `let x = &mut place;` aliases: variable -> place (every use re-reads / writes the place)
     aliases: Vec<Vec<(String, Place)>>,
     /// enclosing `while` loops: the tuple of loop-carried variables of each
@@ -146,6 +151,8 @@ impl<'g> Cx<'g> {
             mut_params: Vec::new(),
             opt_mut_params: Vec::new(),
             ref_ret: None,
+            rand_sites: 0,
+            snapshots: std::collections::BTreeMap::new(),
             aliases: vec![Vec::new()],
             loop_stack: Vec::new(),
             ro: vec![Vec::new()],
@@ -326,6 +333,22 @@ impl<'g> Cx<'g> {
             ts.span()
         };
         format!("\"{}:{}: {}\"", self.file, self.fn_disp, self.src(span, ts.to_string()))
+    }
+
+    /// a statement-position `if` / `match` that assigns several outer variables but whose branches all leave the fn:
+    /// Lean cannot infer the type of the tuple pattern, spell it out
+    fn typed_if_diverging(&self, m: &[String], d: Doc) -> Doc {
+        if m.len() < 2 || !d.all_leaves_diverge() {
+            return d;
+        }
+        let mut tys = Vec::new();
+        for v in m {
+            match self.lookup(v) {
+                Some(t) if !t.has_unknown() => tys.push(super::lean_ty(self.g, &self.ns, &t)),
+                _ => return d,
+            }
+        }
+        Doc::Typed(Box::new(d), format!("({})", tys.join(" × ")))
     }
 
     pub fn tuple_pat(vars: &[String]) -> String {
@@ -529,7 +552,47 @@ impl<'g> Cx<'g> {
             | Place::MapEntry(_, _, _, _)
             | Place::VariantField(_, _, _, _, _, _)
             | Place::Range(_, _, _, _, _)
-            | Place::OptSome(_, _, _) => None,
+            | Place::OptSome(_, _, _) => {
+                // the value read just before the call (valid only while the root has not been updated)
+                if roots.contains_key(&p.root()) {
+                    return None;
+                }
+                self.snapshots.get(&format!("{:?}", p)).cloned()
+            }
+        }
+    }
+
+    /// before a `call(..)?` whose `Err` state must be written back into `p`: read every intermediate place that has no
+    /// pure reading (indexed elements, map entries, payloads of `Option`s) into a temporary.  These are the reads the
+    /// evaluation of the argument `&mut p` performs anyway: no new panic.
+    pub fn snapshot_for_update(&mut self, p: &Place, stmts: &mut Vec<Stmt>) -> R<()> {
+        match p {
+            Place::Var(_, _) | Place::Nowhere(_) => Ok(()),
+            Place::OptSome(b, _, _) => self.snapshot_for_update(b, stmts),
+            Place::Field(b, _, _)
+            | Place::Index(b, _, _, _)
+            | Place::MapEntry(b, _, _, _)
+            | Place::OptWrap(b, _, _)
+            | Place::Range(b, _, _, _, _)
+            | Place::VariantField(b, _, _, _, _, _) => {
+                self.snapshot_readable(b, stmts)?;
+                self.snapshot_for_update(b, stmts)
+            }
+        }
+    }
+    fn snapshot_readable(&mut self, p: &Place, stmts: &mut Vec<Stmt>) -> R<()> {
+        match p {
+            Place::Var(_, _) | Place::Nowhere(_) => Ok(()),
+            Place::Field(b, _, _) | Place::OptWrap(b, _, _) => self.snapshot_readable(b, stmts),
+            Place::Index(_, _, _, _)
+            | Place::MapEntry(_, _, _, _)
+            | Place::VariantField(_, _, _, _, _, _)
+            | Place::Range(_, _, _, _, _)
+            | Place::OptSome(_, _, _) => {
+                let t = self.read(p, stmts)?;
+                self.snapshots.insert(format!("{:?}", p), t);
+                Ok(())
+            }
         }
     }
 
@@ -673,9 +736,9 @@ impl<'g> Cx<'g> {
                         return Ok(Doc::atom(format!("Exec.err {}", v)));
                     }
                 }
-                self.result_tail_call(e, stmts)
+                self.result_tail_call(e, early, stmts)
             }
-            syn::Expr::MethodCall(_) => self.result_tail_call(e, stmts),
+            syn::Expr::MethodCall(_) => self.result_tail_call(e, early, stmts),
             syn::Expr::Macro(m) => match self.stmt_macro(&m.mac, stmts)? {
                 Some(d) => Ok(d),
                 None => self.bail(e.span(), "this macro is not a value of type `Result`"),
@@ -696,9 +759,13 @@ impl<'g> Cx<'g> {
         }
     }
 
-    fn result_tail_call(&mut self, e: &syn::Expr, stmts: &mut Vec<Stmt>) -> R<Doc> {
-        // `fn f(..) -> Result<..> { g(..) }` is `Ok(g(..)?)` when the error types agree (checked by the `?` path)
+    fn result_tail_call(&mut self, e: &syn::Expr, early: bool, stmts: &mut Vec<Stmt>) -> R<Doc> {
+        // `fn f(..) -> Result<..> { g(..) }` is `Ok(g(..)?)` when the error types agree (checked by the `?` path);
+        // `return g(..)` leaves the fn through the early-exit channel
         let (v, _) = self.try_call(e, e.span(), false, stmts)?;
+        if early {
+            return Ok(Doc::atom(format!("Exec.ret {}", self.early_payload(&v))));
+        }
         let p = self.payload_pub(&v);
         Ok(Doc::atom(format!("pure {}", p)))
     }
@@ -1428,6 +1495,7 @@ impl<'g> Cx<'g> {
             syn::Expr::If(i) => {
                 let m = self.assigned_in_expr(e);
                 let (d, _) = self.if_doc(i, &Tail::Unit(m.clone()), stmts)?;
+                let d = self.typed_if_diverging(&m, d);
                 self.note_dirty(&m);
                 stmts.push(Stmt::Bind(Self::tuple_pat(&m), d));
                 Ok(None)
@@ -1435,6 +1503,7 @@ impl<'g> Cx<'g> {
             syn::Expr::Match(mt) => {
                 let m = self.assigned_in_expr(e);
                 let (d, _) = self.match_doc(mt, &Tail::Unit(m.clone()), stmts)?;
+                let d = self.typed_if_diverging(&m, d);
                 self.note_dirty(&m);
                 stmts.push(Stmt::Bind(Self::tuple_pat(&m), d));
                 Ok(None)
